@@ -125,6 +125,30 @@ def only_signed_minimum(env, name, e, a):
 SIGNED_MIN = "signed-minimum-decodes-as-positive"
 
 
+_AS_LIMITED = [False]
+
+
+def _limit_address_space():
+    """Once per worker process: cap the address space ~1.5 GiB above what the process already uses, so that
+    a decoder which allocates an announced 2^31..2^32-byte payload fails fast instead of touching gigabytes."""
+    if _AS_LIMITED[0]:
+        return
+    _AS_LIMITED[0] = True
+    import resource
+
+    try:
+        with open("/proc/self/statm") as f:
+            vm_pages = int(f.read().split()[0])
+        cur = vm_pages * resource.getpagesize()
+        soft, hard = resource.getrlimit(resource.RLIMIT_AS)
+        new = cur + (3 << 29)
+        if hard != resource.RLIM_INFINITY:
+            new = min(new, hard)
+        resource.setrlimit(resource.RLIMIT_AS, (new, hard))
+    except Exception:  # noqa
+        pass
+
+
 class Budget(BaseException):
     pass
 
@@ -345,15 +369,16 @@ def _c16(S, serde, fcp, env, text, name, s, v):
             # before looking at the data shows up as a traced peak far above the input size.
             import tracemalloc
 
+            _limit_address_space()
             tracemalloc.start()
             try:
                 try:
                     serde.decode(fcp, name, bytearray(data))
+                    peak = tracemalloc.get_traced_memory()[1]
+                except MemoryError:
+                    peak = 1 << 62  # it tried to allocate what the prefix announced
                 except Exception:  # noqa
-                    pass
-                peak = tracemalloc.get_traced_memory()[1]
-            except MemoryError:
-                peak = 1 << 62
+                    peak = tracemalloc.get_traced_memory()[1]
             finally:
                 tracemalloc.stop()
             S.count("executions")
